@@ -1244,3 +1244,14 @@ Proof.
     destruct (existsb (Z.eqb (d_rc d)) all_return_codes && negb (existsb (Z.eqb (d_rc d)) fatal_codes));
       discriminate Hoc.
 Qed.
+
+Corollary completion_exactly_once : forall cf cmds evs k tr k' rest,
+  NoDup (ids cmds) ->
+  burst cf cmds evs k = (tr, Returned, k', rest) ->
+  (forall c, In c (ids cmds) -> n_callbacks c tr = 1%nat) /\
+  (forall c, ~ In c (ids cmds) -> n_callbacks c tr = 0%nat).
+Proof.
+  intros cf cmds evs k tr k' rest Hnd Hb. pose proof (completion cf cmds evs k tr k' rest Hb) as Hc. split.
+  - intros c Hin. rewrite Hc. pose proof (total_le_1 cmds c Hnd). apply occurrences_In in Hin. lia.
+  - intros c Hin. rewrite Hc. apply occurrences_notin. exact Hin.
+Qed.
